@@ -2,5 +2,51 @@
 
 package objecttree
 
+import (
+	"github.com/anyproto/any-sync/commonspace/object/tree/treechangeproto"
+	"github.com/anyproto/any-sync/util/crypto"
+)
+
 // VerifFirstOrderId is the order id the storage gives to a tree's root.
 func VerifFirstOrderId() string { return lexId.Next("") }
+
+// VerifFullOrder builds the whole history held by storage (no reduction) with the test change builder and returns
+// the ids in the order the tree iterates them from the tree root.
+func VerifFullOrder(storage Storage) ([]string, error) {
+	root, err := storage.Root(ctxBackground())
+	if err != nil {
+		return nil, err
+	}
+	cb := &nonVerifiableChangeBuilder{ChangeBuilder: NewChangeBuilder(newMockKeyStorage(), root.RawTreeChangeWithId())}
+	tr, err := newTreeBuilder(storage, cb).BuildFull()
+	if err != nil {
+		return nil, err
+	}
+	var ids []string
+	tr.iterate(tr.root, func(c *Change) bool {
+		ids = append(ids, c.Id)
+		return true
+	})
+	return ids, nil
+}
+
+// VerifTreeState exposes what the in-memory DAG of an object tree currently holds.
+func VerifTreeState(t ObjectTree) (rootId string, attached []string, unattached int) {
+	ot, ok := t.(*objectTree)
+	if !ok {
+		return "", nil, 0
+	}
+	for id := range ot.tree.attached {
+		attached = append(attached, id)
+	}
+	sortStrings(attached)
+	return ot.tree.RootId(), attached, len(ot.tree.unAttached)
+}
+
+// VerifUseTestStorageChangeBuilder makes CreateStorage accept the unsigned roots of the test change creator (what
+// MockChangeCreator.CreateNewTreeStorage does for the repository's own tests).
+func VerifUseTestStorageChangeBuilder() {
+	StorageChangeBuilder = func(keys crypto.KeyStorage, rootChange *treechangeproto.RawTreeChangeWithId) ChangeBuilder {
+		return &nonVerifiableChangeBuilder{ChangeBuilder: NewChangeBuilder(newMockKeyStorage(), rootChange)}
+	}
+}
